@@ -269,15 +269,19 @@ Definition srow := (Z * list Z)%type.
 Definition struct_match (mk ks : list Z) : bool :=
   forallb (fun pr => (fst pr =? 0) || (snd pr =? fst pr)) (combine mk ks).
 (* the model value: one struct (its key members) or a slice of single-key structs (their keys, 0 = none).
-   Slice: the scan over the elements leaves isZero describing the LAST element; only if that one is
-   keyed, WHERE pk IN (the non-zero keys) is added. *)
+   Slice: the scan over the elements stops at the first element that has a key (/repo commit 049875c);
+   if there is one, WHERE pk IN (the non-zero keys) is added. *)
 Inductive mkey := MStruct (members : list Z) | MSlice (keys : list Z).
 Definition key_match (mk : mkey) (ks : list Z) : bool :=
   match mk with
   | MStruct m => struct_match m ks
-  | MSlice l => (last l 0 =? 0)
+  | MSlice l => negb (existsb (fun k => negb (k =? 0)) l)
                 || existsb (fun k => negb (k =? 0) && (hd 0 ks =? k)) l
   end.
+(* the slice branch BEFORE commit 049875c (kept only as a record, Props_C10.c10_slice_model_old_refuted):
+   the scan left isZero describing the LAST element *)
+Definition slice_match_old (l ks : list Z) : bool :=
+  (last l 0 =? 0) || existsb (fun k => negb (k =? 0) && (hd 0 ks =? k)) l.
 Definition targeted (stored : list srow) (model_key : mkey) (where_ids : option (list Z)) : list Z :=
   map fst (filter (fun r => key_match model_key (snd r)
                             && match where_ids with None => true | Some l => mem_z (fst r) l end) stored).
